@@ -1,7 +1,9 @@
 //! Independent codec for the E57 format, written from the format description in DESIGN.md
 //! appendix A. Shares no code with /repo. Used as judge (fsck/decoder), as foreign producer
 //! (encoder) and as field locator for structure-aware corruption.
+pub mod decode;
 pub mod page;
+pub mod xml;
 
 /// Cheap completeness test used until the full fsck has judged an image: whole pages, valid
 /// checksums, file header with the right magic whose length field equals the image size.
@@ -14,4 +16,146 @@ pub fn quick_complete(image: &[u8]) -> bool {
     }
     let len = u64::from_le_bytes(image[16..24].try_into().unwrap_or([0; 8]));
     len == image.len() as u64 && page::bad_pages(image).is_empty()
+}
+
+use crate::adapter;
+use crate::model::*;
+use crate::simdisk::{new_ctx, Chunk, SimDisk, DEV_DISK3};
+
+/// Compare what refcodec decodes with what the crate's reader reports (calibration and C02/C03).
+pub fn diff_file(got: &FileRead, want: &FileRead, compare_bounds: bool) -> Option<String> {
+    if got.guid != want.guid {
+        return Some(format!("file guid {:?} vs {:?}", got.guid, want.guid));
+    }
+    if got.coord_meta != want.coord_meta {
+        return Some(format!("coordinateMetadata {:?} vs {:?}", got.coord_meta, want.coord_meta));
+    }
+    if got.creation != want.creation {
+        return Some(format!("creationDateTime {:?} vs {:?}", got.creation, want.creation));
+    }
+    if got.extensions != want.extensions {
+        return Some(format!("extensions {:?} vs {:?}", got.extensions, want.extensions));
+    }
+    if got.pcs.len() != want.pcs.len() {
+        return Some(format!("{} vs {} point clouds", got.pcs.len(), want.pcs.len()));
+    }
+    for (i, (g, w)) in got.pcs.iter().zip(want.pcs.iter()).enumerate() {
+        if g.guid != w.guid {
+            return Some(format!("pc {i}: guid {:?} vs {:?}", g.guid, w.guid));
+        }
+        if g.proto != w.proto {
+            return Some(format!("pc {i}: prototype {:?} vs {:?}", g.proto, w.proto));
+        }
+        if g.records != w.records {
+            return Some(format!("pc {i}: records {} vs {}", g.records, w.records));
+        }
+        if let Some(d) = diff_pc_meta(&g.meta, &w.meta) {
+            return Some(format!("pc {i}: {d}"));
+        }
+        if compare_bounds && g.bounds != w.bounds {
+            return Some(format!("pc {i}: bounds {:?} vs {:?}", g.bounds, w.bounds));
+        }
+        match (&g.points, &w.points) {
+            (Ok(a), Ok(b)) => {
+                if let Some(d) = diff_points(a, b) {
+                    return Some(format!("pc {i}: {d}"));
+                }
+            }
+            (a, b) => {
+                if a.is_ok() != b.is_ok() {
+                    return Some(format!("pc {i}: points {:?} vs {:?}", a.as_ref().map(|p| p.len()), b.as_ref().map(|p| p.len())));
+                }
+            }
+        }
+    }
+    if got.images.len() != want.images.len() {
+        return Some(format!("{} vs {} images", got.images.len(), want.images.len()));
+    }
+    for (i, (g, w)) in got.images.iter().zip(want.images.iter()).enumerate() {
+        if g.guid != w.guid {
+            return Some(format!("image {i}: guid {:?} vs {:?}", g.guid, w.guid));
+        }
+        if let Some(d) = diff_img_meta(&g.meta, &w.meta) {
+            return Some(format!("image {i}: {d}"));
+        }
+        if g.visual != w.visual {
+            return Some(format!("image {i}: visual reference differs: {:?} vs {:?}", g.visual.as_ref().map(|r| (&r.props, r.data_len, r.mask_len)), w.visual.as_ref().map(|r| (&r.props, r.data_len, r.mask_len))));
+        }
+        if g.projection != w.projection {
+            return Some(format!("image {i}: projection differs: {:?} vs {:?}", g.projection.as_ref().map(|r| (r.kind, &r.props, r.data_len, r.mask_len)), w.projection.as_ref().map(|r| (r.kind, &r.props, r.data_len, r.mask_len))));
+        }
+    }
+    None
+}
+
+/// Calibration against a third implementation: every bundled foreign file with valid checksums
+/// must pass every fsck rule and decode to what the crate's reader returns.
+pub fn calibrate(verbose: bool) -> Result<usize, String> {
+    page::self_check()?;
+    xml::self_check()?;
+    let dir = std::path::Path::new("/repo/testdata");
+    let mut names: Vec<String> = std::fs::read_dir(dir)
+        .map_err(|e| format!("cannot list /repo/testdata: {e}"))?
+        .flatten()
+        .filter_map(|e| e.file_name().into_string().ok())
+        .filter(|n| n.ends_with(".e57") && n != "corrupt_crc.e57")
+        .collect();
+    names.sort();
+    let mut n = 0;
+    for name in &names {
+        let image = std::fs::read(dir.join(name)).map_err(|e| format!("{name}: {e}"))?;
+        let (dec, problems) = decode::analyse(&image);
+        if verbose {
+            println!("{name}: {} bytes, {} problems", image.len(), problems.len());
+            for p in &problems {
+                println!("   {p}");
+            }
+        }
+        let dec = dec.ok_or_else(|| format!("calibration: {name} not decodable: {problems:?}"))?;
+        // every bundled file except corrupt_crc.e57 is a valid file
+        let expect_clean = true;
+        if expect_clean && !problems.is_empty() {
+            return Err(format!("calibration: fsck rule broken by bundled file {name}: {}", problems[0]));
+        }
+        let ctx = new_ctx(vec![]);
+        let disk = SimDisk::new(&ctx, DEV_DISK3, image.clone(), &Chunk::Full);
+        let mut r = e57::E57Reader::new(disk).map_err(|e| format!("calibration: crate cannot open {name}: {e}"))?;
+        let theirs = adapter::read_all(&mut r);
+        let mut dec = dec;
+        // Known deviation of the crate, not judged by calibration: a date-time structure without
+        // isAtomicClockReferenced (optional in the standard, default 0) is dropped entirely.
+        if theirs.creation.is_none() && dec.file.creation.as_ref().map(|d| !d.atomic).unwrap_or(false) {
+            dec.file.creation = None;
+        }
+        for (g, w) in dec.file.pcs.iter_mut().zip(theirs.pcs.iter()) {
+            if w.meta.acq_start.is_none() && g.meta.acq_start.as_ref().map(|d| !d.atomic).unwrap_or(false) {
+                g.meta.acq_start = None;
+            }
+            if w.meta.acq_end.is_none() && g.meta.acq_end.as_ref().map(|d| !d.atomic).unwrap_or(false) {
+                g.meta.acq_end = None;
+            }
+        }
+        for (g, w) in dec.file.images.iter_mut().zip(theirs.images.iter()) {
+            if w.meta.acquisition.is_none() && g.meta.acquisition.as_ref().map(|d| !d.atomic).unwrap_or(false) {
+                g.meta.acquisition = None;
+            }
+        }
+        if expect_clean {
+            if let Some(d) = diff_file(&dec.file, &theirs, true) {
+                if verbose {
+                    println!("   DIFF {d}");
+                }
+                // differences that are known, documented deviations of the crate are tolerated by name
+                if !calibration_tolerated(name, &d) {
+                    return Err(format!("calibration: refcodec and the crate disagree on {name}: {d}"));
+                }
+            }
+        }
+        n += 1;
+    }
+    Ok(n)
+}
+
+fn calibration_tolerated(_name: &str, _diff: &str) -> bool {
+    false
 }
